@@ -84,17 +84,19 @@ type c19VCase struct {
 // process-wide fixture (read-only after construction, except the status-list table which is wiped per case)
 
 type c19Env struct {
-	ld      jsonld.JSONLD
-	db      *gorm.DB
-	trust   *trust.Config
-	vcLD    [][]byte         // JSON-LD credential seeds
-	vcJWT   []map[string]any // JWT credential claim seeds
-	vpLD    [][]byte
-	vpJWT   []map[string]any
-	revs    [][]byte
-	status  []byte // valid StatusList2021Credential
-	jwtVC   string // a valid compact JWT credential (embedded in presentations)
-	initErr error
+	ld                    jsonld.JSONLD
+	db                    *gorm.DB
+	trust                 *trust.Config
+	vcLD                  [][]byte         // JSON-LD credential seeds
+	vcJWT                 []map[string]any // JWT credential claim seeds
+	vpLD                  [][]byte
+	vpJWT                 []map[string]any
+	revs                  [][]byte
+	status                []byte         // valid StatusList2021Credential
+	statusNoExp           []byte         // valid, without expirationDate
+	statusRevokedTemplate map[string]any // unsigned list document (encodedList is filled in by the status list unit)
+	jwtVC                 string         // a valid compact JWT credential (embedded in presentations)
+	initErr               error
 }
 
 var (
@@ -214,7 +216,7 @@ func c19GetEnv(x *h.Ctx) *c19Env {
 		authVC := map[string]any{"@context": vcCtx, "id": c19Issuer + "#auth-1", "type": []any{"NutsAuthorizationCredential", "VerifiableCredential"},
 			"issuer": c19Issuer, "issuanceDate": c19Created.Format(time.RFC3339),
 			"credentialSubject": map[string]any{"id": c19Holder, "purposeOfUse": "eTransfer",
-				"resources": []any{map[string]any{"path": "/composition/1", "operations": []any{"read"}, "userContext": true}},
+				"resources":       []any{map[string]any{"path": "/composition/1", "operations": []any{"read"}, "userContext": true}},
 				"localParameters": map[string]any{"a": "b"}}}
 		statusVC := orgVC("org-status", c19Holder)
 		statusVC["@context"] = []any{"https://www.w3.org/2018/credentials/v1", "https://nuts.nl/credentials/v1", "https://w3id.org/vc/status-list/2021/v1"}
@@ -228,6 +230,11 @@ func c19GetEnv(x *h.Ctx) *c19Env {
 			"credentialSubject": map[string]any{"id": c19ListURL, "type": "StatusList2021", "statusPurpose": "revocation",
 				"encodedList": "H4sIAAAAAAAA_-zAsQAAAAACsNDypwqjZ2sAAAAAAAAAAAAAAAAAAACAtwUAAP__NxdfzQBAAAA="}}
 		e.status = e.signLD(list, c19IssuerKid, opts)
+		// the same list without expirationDate (allowed for external lists), and one with bit 5 set (credential revoked)
+		noExp := c19Obj(jsonmut.Encode(list))
+		delete(noExp, "expirationDate")
+		e.statusNoExp = e.signLD(noExp, c19IssuerKid, opts)
+		e.statusRevokedTemplate = c19Obj(jsonmut.Encode(list))
 
 		// JWT credential claims
 		jwtClaims := map[string]any{"iss": c19Issuer, "sub": c19Holder, "nbf": json.Number(fmt.Sprint(c19Created.Unix())), "exp": json.Number("1893456000"), "jti": c19Issuer + "#jwt-1",
